@@ -5,7 +5,7 @@ import json, os, re, subprocess, sys, time, collections
 sys.path.insert(0, os.path.dirname(os.path.abspath(__file__)))
 import pipeline, render, gen, dumpparse
 
-VERIF = "/verif"
+VERIF = os.environ.get("VERIF_ROOT") or os.path.dirname(os.path.dirname(os.path.abspath(__file__)))
 OUT = os.environ.get("VERIF_OUT", VERIF)   # where evidence/ and replays/ are written
 LEAN_DIR = os.path.join(VERIF, "lean")
 ALLOWED_AXIOMS = {"propext", "Classical.choice", "Quot.sound"}
